@@ -38,13 +38,15 @@ CLAIMED = {
     "C04": C("model_checking",
              "Soundness of every degree traversal (e.degree, compute_degree, recursive, iterative, bounded, is_linear, is_quadratic): a reported degree d is checked by a z3 "
              "query for a point x and step h at which the order-(d+1) finite difference of the REFERENCE formula is non-zero (unsat = polynomial of degree <= d); "
-             "asked cold, with sub-expressions classified first (warm caches) and after read-only queries on every node and container.",
+             "asked cold, with sub-expressions classified first (warm caches), after read-only queries on every node and container, and again after the "
+             "parameters were updated (from symbolic and from concrete initial values).",
              COMMON_NOTE + "Sat answers may stem from uninterpreted functions and are therefore always replayed numerically.", "DESIGN.md 2/C04",
              TECH + "; finite-difference encoding of polynomial degree"),
     "C05": C("model_checking",
              "The real LinearProgramExtractor runs on linear models written through 54 API forms with SYMBOLIC coefficients, constants, right-hand sides and bounds; z3 proves "
              "for all x and all data that cost.x + constant equals the objective, every row reproduces the user's relation with its sense, columns are the reported variables "
-             "and bounds are the declared ones.",
+             "and bounds are the declared ones, also for a second extraction after every bound was re-assigned; forms include coefficient arrays of other NumPy dtypes, "
+             "powers / quotients of constant sub-expressions, dot products with constant vectors and constant-first (reflected) differences.",
              COMMON_NOTE, "DESIGN.md 2/C05"),
     "C06": C("model_checking",
              "Problem.solve runs against nondeterministic solver stubs (arbitrary point, success flag and message; no feasibility promise); the explorer walks every branch of "
@@ -89,7 +91,8 @@ CLAIMED = {
              "Exhaustive histories (length <= 4 / 5) over minimize / maximize / subject_to (single and list) / bound assignment with symbolic values / solve (LP and NLP "
              "methods) / read: after every solve and read z3 proves the recorded solver arguments equal to those of a fresh Problem built from the current state, and "
              "variables, linearity verdict and get_bounds() are compared; every recorded call is additionally checked against the REFERENCE formulas of the current "
-             "state (not only against a fresh optyx problem).",
+             "state (not only against a fresh optyx problem); histories include failed edits (subject_to raising in the middle of a list) and interleavings of "
+             "derivative-free and derivative-based methods.",
              COMMON_NOTE + "Reference = a fresh Problem over the same expression and variable objects.", "DESIGN.md 2/C13", TECH + "; history enumeration"),
     "C14": C("model_checking",
              "Process-wide caches are discovered at run time; for 10 target models and every prefix of <= 2 / 3 name-colliding pool models (each compiled, differentiated, "
@@ -120,11 +123,11 @@ CLAIMED = {
     "C19": C("model_checking",
              "Every derivative closure family is executed over XReal (extended reals with IEEE/NumPy special-value rules as z3 If-terms, validated against NumPy on every run) "
              "with FINITE symbolic inputs; the sanitiser's input is recorded; z3 proves all outputs finite, finite raw entries unchanged, NaN->0, +-inf->+-1e16, and "
-             "vectorised == general path entrywise including singular points.",
+             "vectorised == general path and recursive == deep-tree algorithms entrywise including singular points.",
              COMMON_NOTE + "Overflow of finite operations and signed zeros are outside the model.", "DESIGN.md 2/C19", TECH + "; extended-real domain XReal"),
     "C20": C("fault_enumeration",
              "Full product of fault location (solver entry, k-th objective / gradient / constraint / Jacobian / Hessian callback, compile_hessian, compile_jacobian, "
-             "compile_expression, LP extraction, linprog) x exception class (incl. KeyboardInterrupt) x method x 3 models: outcome FAILED or the exception propagated, "
+             "compile_expression, LP extraction, linprog, and inside the compiled objective / Jacobian / Hessian callables) x exception class (incl. KeyboardInterrupt) x method x 3 models: outcome FAILED or the exception propagated, "
              "warnings.showwarning and recursion limit restored, and z3 proves the next solve's recorded arguments equal to those of an untouched copy.",
              COMMON_NOTE + "Assumes an exception raised by a callback propagates out of SciPy (validated with the real SciPy in the thorough tier).", "DESIGN.md 2/C20",
              TECH + "; fault-injecting solver stubs"),
